@@ -36,7 +36,10 @@ func vmID(did string, ki int, dedicated bool) string {
 func (g *G) genDoc(did string, auth []int) *didtypes.DIDDocument {
 	keys := g.W.Keys
 	doc := &didtypes.DIDDocument{Id: did}
-	switch g.weighted("ctx", "one", 6, "two", 2, "none", 2) {
+	switch g.weighted("ctx", "one", 6, "two", 2, "none", 2, "long", 1) {
+	case "long":
+		// entries longer than 127 bytes need a two-byte length prefix on the wire
+		doc.Contexts = &didtypes.JSONStringOrStrings{ctxV1, "https://example.org/" + strings.Repeat("c", pick(g, "ctx-len", []int{107, 108, 300, 20000}))}
 	case "one":
 		doc.Contexts = &didtypes.JSONStringOrStrings{ctxV1}
 	case "two":
